@@ -1,10 +1,119 @@
 import TempestVerif.Drv.Util
-/- line-protocol handlers of property C15 (stub: no commands yet) -/
+import TempestVerif.Model.EM
+import TempestVerif.Model.HGMM
+/-
+  line-protocol handlers of property C15.
+  Matrices cross as rows separated by `;` (entries by `,`), stacks of matrices by `|`.
+
+  mstep.F / mstep.Q   d=<nat> k=<nat> x=<n×d> r=<n×K> s=<n> tiny=<scalar> eps=<scalar>
+        →  <weights> <means K×d> <covFull K×(d×d)> <covDiag K×d>
+  estep.F / estep.Q   p=<n×K> eps=<scalar>          →  <normalised n×K>
+  hgmm.F / hgmm.Q     n=<nat> minpts=<nat> maxit=<nat> script=<it>:<idx>:<improvement>:<threshold>:<labels>;…
+        (labels: a string of digits, `-` when `predict` was not called)
+        →  <K> <clusters> <labels> <trace it:idx:m.m.m;…>     or  bad-script…
+  argmax.F / argmin.F  p=<rows>                      →  <index per row, -1 for an empty row>
+-/
 namespace Drv.C15
-open Drv
+open Drv Model.EM Model.HGMM
+
+def parseMat? {β : Type} (f : String → Option β) (s : String) : Option (List (List β)) :=
+  if s.isEmpty || s == "-" then some [] else (s.splitOn ";").mapM (parseList? f)
+
+def showMat {β : Type} (f : β → String) (m : List (List β)) : String :=
+  if m.isEmpty then "-" else ";".intercalate (m.map (showList f))
+
+def showStack {β : Type} (f : β → String) (m : List (List (List β))) : String :=
+  if m.isEmpty then "-" else "|".intercalate (m.map (showMat f))
+
+def mstepH (α : Type) [Sc α] [Codec α] (args : List (String × String)) : String :=
+  let sc := Codec.parse (α := α)
+  match (getArg args "d").bind String.toNat?, (getArg args "k").bind String.toNat?,
+        (getArg args "x").bind (parseMat? sc), (getArg args "r").bind (parseMat? sc),
+        (getArg args "s").bind (parseList? sc), (getArg args "tiny").bind sc, (getArg args "eps").bind sc with
+  | some d, some k, some x, some r, some s, some tiny, some eps =>
+    let m := mstep tiny eps d k x r s
+    s!"{showList Codec.shw m.weights} {showMat Codec.shw m.means} {showStack Codec.shw m.covFull} {showMat Codec.shw m.covDiag}"
+  | _, _, _, _, _, _, _ => "bad-op"
+
+def estepH (α : Type) [Sc α] [Codec α] (args : List (String × String)) : String :=
+  let sc := Codec.parse (α := α)
+  match (getArg args "p").bind (parseMat? sc), (getArg args "eps").bind sc with
+  | some p, some eps => showMat Codec.shw (estepNormalise eps p)
+  | _, _ => "bad-op"
+
+/-- one script line `it:idx:improvement:threshold:labels` -/
+def parseEntry? (α : Type) [Codec α] (s : String) : Option ((Nat × Nat) × Entry α) :=
+  match s.splitOn ":" with
+  | [it, idx, imp, thr, lab] =>
+    match it.toNat?, idx.toNat?, Codec.parse (α := α) imp, Codec.parse (α := α) thr with
+    | some it, some idx, some imp, some thr =>
+      let labs : Option (List Nat) :=
+        if lab == "-" then some [] else lab.toList.mapM fun c => (hexDigit? c)
+      labs.map fun l => ((it, idx), ⟨imp, thr, l⟩)
+    | _, _, _, _ => none
+  | _ => none
+
+def parseScript? (α : Type) [Codec α] (s : String) : Option (List ((Nat × Nat) × Entry α)) :=
+  if s.isEmpty || s == "-" then some [] else (s.splitOn ";").mapM (parseEntry? α)
+
+/-- which `(idx, members)` one pass examines (the clusters that are not skipped) -/
+def examined (minPts : Nat) (clusters : List (List Nat)) : List (Nat × List Nat) :=
+  (clusters.zipIdx.filter fun p => !(p.1.length < minPts)).map fun p => (p.2, p.1)
+
+/-- the model's loop, stepping with the model's own `scan`/`applySplit`, recording what was examined -/
+def traceLoop {α : Type} [Sc α] (oracle : Nat → Nat → List Nat → Entry α) (minPts : Nat) :
+    Nat → Nat → List (List Nat) → List (Nat × Nat × List Nat) → List (List Nat) × List (Nat × Nat × List Nat)
+  | 0, _, cl, tr => (cl, tr)
+  | fuel + 1, it, cl, tr =>
+    let tr' := tr ++ (examined minPts cl).map fun p => (it + 1, p.1, p.2)
+    match scan (oracle (it + 1)) minPts 0 cl none with
+    | none => (cl, tr')
+    | some b => traceLoop oracle minPts fuel (it + 1) (applySplit cl b) tr'
+
+def showLabel (l : Option Nat) : String := match l with | some k => toString k | none => "-1"
+
+def hgmmH (α : Type) [Sc α] [Codec α] (zero : α) (args : List (String × String)) : String :=
+  match (getArg args "n").bind String.toNat?, (getArg args "minpts").bind String.toNat?,
+        (getArg args "maxit").bind String.toNat?, (getArg args "script").bind (parseScript? α) with
+  | some n, some minPts, some maxIt, some script =>
+    let find (it idx : Nat) : Option (Entry α) := (script.find? fun p => p.1 == (it, idx)).map (·.2)
+    -- a key the script lacks is reported below (never silently defaulted)
+    let oracle : Nat → Nat → List Nat → Entry α := fun it idx _ => (find it idx).getD ⟨zero, zero, []⟩
+    let clusters := fitClusters oracle n minPts maxIt
+    let (cl2, tr) := traceLoop oracle minPts maxIt 0 [List.range n] []
+    let missing := tr.filter fun t => (find t.1 t.2.1).isNone
+    let badLen := tr.filter fun t => match find t.1 t.2.1 with
+      | some e => !(e.childLabels.isEmpty) && e.childLabels.length != t.2.2.length
+      | none => false
+    if cl2 != clusters then "bad-op"
+    else if !missing.isEmpty then
+      s!"bad-script-missing {showList (fun t : Nat × Nat × List Nat => s!"{t.1}:{t.2.1}") missing}"
+    else if !badLen.isEmpty then
+      s!"bad-script-labels {showList (fun t : Nat × Nat × List Nat => s!"{t.1}:{t.2.1}") badLen}"
+    else
+      let labels := assemble n clusters
+      let trS := if tr.isEmpty then "-" else
+        ";".intercalate (tr.map fun t => s!"{t.1}:{t.2.1}:{".".intercalate (t.2.2.map toString)}")
+      s!"{clusters.length} {showMat toString clusters} {showList showLabel labels} {trS}"
+  | _, _, _, _ => "bad-op"
+
+def argH (α : Type) [Sc α] [Codec α] (useMax : Bool) (args : List (String × String)) : String :=
+  match (getArg args "p").bind (parseMat? (Codec.parse (α := α))) with
+  | some p => showList showLabel (if useMax then predict p else predictNearest p)
+  | none => "bad-op"
 
 def handle (cmd : String) (args : List (String × String)) : Option String :=
   match cmd with
+  | "mstep.F" => some (mstepH Float args)
+  | "mstep.Q" => some (mstepH Rat args)
+  | "estep.F" => some (estepH Float args)
+  | "estep.Q" => some (estepH Rat args)
+  | "hgmm.F" => some (hgmmH Float 0.0 args)
+  | "hgmm.Q" => some (hgmmH Rat 0 args)
+  | "argmax.F" => some (argH Float true args)
+  | "argmin.F" => some (argH Float false args)
+  | "argmax.Q" => some (argH Rat true args)
+  | "argmin.Q" => some (argH Rat false args)
   | _ => none
 
 end Drv.C15
